@@ -50,6 +50,96 @@ UNORDERED = ("FuturesUnordered", "buffer_unordered", "for_each_concurrent", "sel
              "try_buffer_unordered", "par_iter", "sort_unstable", "select_nth_unstable", "BinaryHeap")
 
 
+SCOPE_OK = ("Option::map_or(Glob::from(glob), True, closure)", "Option::is_none_or(Glob::from(glob), closure)")
+
+
+def consumers(ctx, rule, only=None):
+    """check_dir and IgnoreFilterer::check_event (shared with C14 R14.2): what each Match outcome does.
+         None -> pass / verdict unchanged; Whitelist -> pass / verdict true;
+         Ignore(glob): in scope (glob has no source dir, or the path is under it) -> reject; out of scope -> as None"""
+    facts = ctx.facts
+    want = {"None": "keep", "Whitelist": "pass", "Ignore+scope": "reject", "Ignore-scope": "keep"}
+    for name, fnpath, lookup in (("check_dir", IF + "::check_dir", None), ("IgnoreFilterer::check_event", None, ("watchexec_filterer_ignore::IgnoreFilterer", "Filterer", "check_event"))):
+        if only is not None and name != only:
+            continue
+        try:
+            g = ctx.anchor_fn(rule, fnpath) if fnpath else ctx.anchor_one(rule, name, facts.trait_methods(*lookup))
+            root = thir.root(g)
+            en = pathx.Enum(interesting=lambda d: strip_generics(d).endswith("IgnoreFilter::match_path"))
+            ps = en.paths(root)
+            rows = []
+            if name == "check_dir":
+                rows = [(q.ev, q) for q in ps]
+            else:
+                for q in ps:
+                    ctx.require(q.val == "Ok{0: pass}" and q.out == "val", rule, "table:%s:returns-pass" % name, "the accumulated verdict is returned", g.loc(g.line), detail=str(q.val))
+                    for e in q.ev:
+                        if e[0] == "loop":
+                            rows += [(it, None) for it in e[1]]
+                init = [thir.peel(st["i"]).get("b") for st in thir.walk(root) if isinstance(st, dict) and st.get("k") == "let" and st["p"].get("k") == "bind"
+                        and st["p"].get("n") == "pass" and isinstance(st.get("i"), dict)]
+                ctx.require(init == [True], rule, "table:%s:init" % name, "the verdict starts as pass", g.loc(g.line), detail=str(init),
+                            fail="IgnoreFilterer::check_event no longer starts from `pass = true`")
+            seen = {}
+            for evs, q in rows:
+                variant = scope = None
+                for e in evs:
+                    if e[0] == "arm" and "IgnoreFilter::match_path(" in e[1]:
+                        variant = e[2][0].split("(")[0]
+                    elif e[0] == "branch":
+                        core, neg = pathx.split_not(e[1])
+                        if core in SCOPE_OK:
+                            scope = (e[2] != neg)
+                if variant is None:
+                    ctx.violation(rule, "table:%s:no-match-arm" % name, "%s has a path that does not dispatch on the Match outcome" % name, g.loc(g.line))
+                    continue
+                key = variant if variant != "Ignore" else ("Ignore+scope" if scope else ("Ignore-scope" if scope is False else "Ignore?"))
+                if name == "check_dir":
+                    eff = {"True": "keep", "False": "reject"}.get(q.val if q.out in ("val", "ret") else None, "?")
+                    if key in ("Whitelist",) and eff == "keep":
+                        eff = "pass"
+                else:
+                    eff = "keep"
+                    for e in evs:
+                        if e[0] == "assign" and e[1] == "pass":
+                            op = e[3].get("op") if e[3].get("k") == "assignop" else "="
+                            if op == "=":
+                                eff = {"True": "pass", "False": "reject"}.get(e[2], "?")
+                            elif op == "BitAndAssign":
+                                eff = {"True": eff, "False": "reject"}.get(e[2], "?")
+                            else:
+                                eff = "?"
+                    if ("loop-break",) in evs:
+                        eff += "+break"
+                seen[key] = eff
+                ctx.require(want.get(key) == eff, rule, "table:%s:%s" % (name, key), "%s: %s -> %s" % (name, key, want.get(key)), g.loc(g.line),
+                            detail=pathx.show_events(evs)[:300],
+                            fail="%s: outcome %s leads to `%s`, documented is `%s`" % (name, key, eff, want.get(key, "(no such row)")))
+            ctx.require(set(seen) == set(want), rule, "table:%s:rows" % name, "all four rows exist (None, Whitelist, Ignore in / out of scope)", g.loc(g.line), detail=str(sorted(seen)))
+            # the scope test itself: the glob's source directory is a component-wise prefix of the path
+            sc = [c for c in facts.children(g) if c.kind == "closure" and pathx.desc(thir.peel(thir.root(c))).replace("^", "") == "Result::is_ok(Path::strip_prefix(path, f))"]
+            ctx.require(len(sc) == 1, rule, "scope-test:" + name, "in scope <=> path.strip_prefix(glob.from()) succeeds", g.loc(g.line),
+                        fail="%s no longer decides the scope of a positive match by `path.strip_prefix(from).is_ok()`" % name)
+            # what is asked: a directory probe for check_dir; (normalised path, is_dir) for events
+            args = [[pathx.desc(a).replace("^", "") for a in nd["a"]] for c, nd in thir.calls_in(root) if strip_generics(c).endswith("IgnoreFilter::match_path")]
+            if name == "check_dir":
+                ctx.require(args == [["self", "path", "True"]], rule, "probe:" + name, "check_dir asks about the path as a directory", g.loc(g.line), detail=str(args))
+            else:
+                lets = {}
+                for st in thir.walk(root):
+                    if isinstance(st, dict) and st.get("k") == "let" and st["p"].get("k") == "bind" and isinstance(st.get("i"), dict):
+                        lets.setdefault(st["p"]["n"], []).append(pathx.desc(st["i"]))
+                isd = [c2 for c2 in facts.children(g) if c2.kind == "closure" and pathx.desc(thir.peel(thir.root(c2))) == "PartialEq::eq(t, Dir)"]
+                ctx.require(args == [["self.0", "path", "is_dir"]] and lets.get("is_dir") == ["Option::map_or(file_type, False, closure)"] and len(isd) == 1, rule,
+                            "probe:" + name, "the event's path is probed with is_dir = (file type known and Dir)", g.loc(g.line), detail="%s %s" % (args, lets.get("is_dir")))
+                ctx.require(any("NormalizePath::normalize(" in d for d in lets.get("path", [])), rule, "probe-normalised:" + name,
+                            "the path is normalised before both the lookup and the scope test", g.loc(g.line), detail=str(lets.get("path")),
+                            fail="IgnoreFilterer::check_event no longer normalises the event path: match_path normalises its own copy, the scope test then runs on the raw path")
+        except Skip:
+            pass
+
+
+
 def run(ctx):
     ctx.level = "other"
     facts = ctx.facts
@@ -173,31 +263,8 @@ def run(ctx):
     except Skip:
         pass
 
-    # ---- R03.4 consumers
-    for name, fnpath, lookup in (("check_dir", IF + "::check_dir", None), ("IgnoreFilterer::check_event", None, ("watchexec_filterer_ignore::IgnoreFilterer", "Filterer", "check_event"))):
-        try:
-            if fnpath:
-                g = ctx.anchor_fn("R03.4", fnpath)
-            else:
-                g = ctx.anchor_one("R03.4", name, facts.trait_methods(*lookup))
-            ms = [m for m in thir.find(thir.root(g), "match") if m["src"] == "Normal" and "ignore::Match<" in m["sty"]]
-            if len(ms) != 1:
-                ctx.violation("R03.4", "floor:match:" + name, "%s no longer matches on the Match verdict" % name, g.loc(g.line))
-                continue
-            for arm in ms[0]["arms"]:
-                v = thir.pattern_variants(arm["p"])[0]
-                if v == "Ignore":
-                    ifs = thir.find(arm["b"], "if")
-                    ok = False
-                    for n_ in ifs:
-                        d = pathx.desc(n_["c"])
-                        if not d.startswith("Not ") and ("Option::map_or(Glob::from(glob), True, closure)" in d or "map_or(" in d and "Glob::from" in d):
-                            cl = [c for c in facts.children(g) if "strip_prefix" in repr([strip_generics(t.callee.def_) for _, t in c.calls()])]
-                            ok = bool(cl)
-                    ctx.require(ok, "R03.4", "scope-recheck:" + name, "%s rejects on Match::Ignore only if the glob's source directory contains the path" % name,
-                                g.loc(arm["l"]), fail="%s treats every Match::Ignore as a rejection without re-checking the glob's scope" % name)
-        except Skip:
-            pass
+    # ---- R03.4 consumers: complete verdict tables over the Match outcome and the scope re-check
+    consumers(ctx, "R03.4")
 
     # ---- R03.5 per-directory grouping
     try:
